@@ -73,6 +73,8 @@ def generate(st):
         'bigkeys': sw.random() < 0.012,
         'none_values': sw.random() < 0.2,       # a table may hold None as a genuine value
     }
+    # renames = {parameter: column}: which column of a wider table feeds the parameter (documented option)
+    cfg['renames'] = {sw.choice(names): 'src'} if sw.random() < 0.15 else None
     if cfg['bigkeys']:
         cfg['keys_int'] = True
         cfg['n_days'] = min(cfg['n_days'], 3)
@@ -148,6 +150,13 @@ def generate(st):
             nm = g.choice(names)
             inputs = dict(inputs)
             inputs[nm] = make_input(nm)
+        elif day > 0 and cfg.get('renames') and g.random() < 0.6:
+            # the caller refreshes the values of its (long-lived) wide table in place: same keys, new numbers
+            nm = list(cfg['renames'])[0]
+            if inputs[nm]['kind'] == 'table' and inputs[nm]['keys']:
+                inputs = dict(inputs)
+                nv = [v + 100 if isinstance(v, int) else v for v in inputs[nm]['vals']]
+                inputs[nm] = dict(inputs[nm], vals=nv, refreshed=True)
         # --- expiry for today's call, relative to the generator's copy of the clock
         today = _midnight(now)
         cand = []
@@ -369,6 +378,10 @@ def execute(trace, ctx=None):
         kwargs['output_is_input'] = False       # f is not shown its own previous output (ours never asks for it)
     if col != 'data':
         kwargs['col'] = col
+    renames = cfg.get('renames') or {}
+    if renames:
+        kwargs['renames'] = dict(renames)
+    held = {}              # parameter -> (signature, the caller's long-lived wide table)
     p = perdictable(f, **kwargs)
     # join defaults as the library documents them: explicit `defaults`, else f's own parameter defaults
     if cfg.get('defaults') is not None:
@@ -427,6 +440,21 @@ def execute(trace, ctx=None):
                         if kk not in uniq:
                             uniq.append(kk); vals.append(v)
                     cname = inp['col'] if inp['col'] not in on else nm
+                    if nm in renames:
+                        # a wide table of which the column named in `renames` is the one to use; the caller keeps the object and
+                        # refreshes that column in place from day to day
+                        sig = (tuple(keycols), tuple(tuple(kk) for kk in uniq))
+                        if nm in held and held[nm][0] == sig:
+                            call[nm] = held[nm][1]
+                            call[nm][renames[nm]] = list(vals)
+                            res.probe('wide-table-refreshed-in-place')
+                        else:
+                            call[nm] = table(keycols, uniq, renames[nm], vals)
+                            call[nm]['alt'] = [-5555 - j for j in range(len(uniq))]
+                            held[nm] = (sig, call[nm])
+                        res.probe('input-column-chosen-by-renames')
+                        minputs[nm] = ('table', keycols, {tuple(kk): v for kk, v in zip(uniq, vals)})
+                        continue
                     call[nm] = table(keycols, uniq, cname, vals)
                     if cname == nm and (k + len(uniq)) % 4 == 0:
                         # a wider table: besides the keys and the column of the parameter's own name (which is the one to use)
@@ -458,7 +486,8 @@ def execute(trace, ctx=None):
                 from pyg_base import join as _join
                 jin = {nm: (call[nm].copy() if is_dictable_like(call[nm]) else call[nm]) for nm in call}
                 jd = {kk: vv for kk, vv in jdefaults.items()}
-                jt = lib(lambda: _join(jin, on=list(on), defaults=dict(jd)), 'join(%s)' % sorted(jin))
+                jkw = {'renames': dict(renames)} if renames else {}
+                jt = lib(lambda: _join(jin, on=list(on), defaults=dict(jd), **jkw), 'join(%s)' % sorted(jin))
                 res.probe('join-called-directly')
                 if mrows is not None:
                     if not is_dictable_like(jt):
@@ -481,7 +510,16 @@ def execute(trace, ctx=None):
                                     raise Violation('join-values', 'join row %s has %s=%r, expected %r' % (kt, nm, r.get(nm, '<absent>'), want[kt].get(nm)), k)
                 # join must not alter its inputs
                 for nm in call:
-                    if is_dictable_like(call[nm]) and dict(jin[nm]) != dict(call[nm]):
+                    if not is_dictable_like(call[nm]):
+                        continue
+                    now_ = dict(jin[nm])
+                    was_ = dict(call[nm])
+                    if nm in renames:
+                        # selecting a column through `renames` leaves a working column named after the parameter in the table
+                        # handed over (the library's way of doing it, and nothing the statement forbids); all else must be as it was
+                        now_.pop(nm, None)
+                        was_.pop(nm, None)
+                    if now_ != was_:
                         raise Violation('join-altered-input', 'join changed its input table %s' % nm, k)
             # ---- previously computed data
             supplied = {}
